@@ -761,7 +761,7 @@ def keyfile_table(repo):
     return {"KeyFileShape.lean": {"changed": changed, "shape": t}}
 
 
-def _skeleton(fn, calls):
+def _skeleton(fn, calls, full=False):
     """control skeleton of a function: its branches, loops, handlers and ways out (continue / early return / raise), and the calls whose
     (dotted) name ends in one of `calls`, in source order. Tests are kept as source text. Statements that contain none of these — a
     local name, a log line — leave the skeleton as it is."""
@@ -804,6 +804,8 @@ def _skeleton(fn, calls):
                 out.append("break")
             elif isinstance(st, ast.Raise):
                 out.append("raise" + (":" + _dotted(st.exc.func if isinstance(st.exc, ast.Call) else st.exc) if st.exc is not None else ""))
+            elif full and isinstance(st, (ast.Return, ast.Assign, ast.AugAssign, ast.AnnAssign, ast.Expr, ast.Delete, ast.Pass)):
+                out.append(ast.unparse(st))              # a small function read whole: every simple statement as normalised source text
             elif isinstance(st, ast.Return):
                 out += interesting(st)
                 if st is not last_top:
@@ -840,11 +842,34 @@ def load_validate_table(repo):
     return {"LoadValidateShape.lean": {"changed": changed, "shape": t}}
 
 
+def support_shape(repo):
+    """control skeletons of the helper functions of support.py that stand between an application and a configuration: reset, status,
+    command-line override, enumeration, parser generation"""
+    mod = _parse(repo, "support.py")
+
+    def fn(name):
+        f = next((n for n in mod.body if isinstance(n, ast.FunctionDef) and n.name == name), None)
+        if f is None:
+            raise Unknown("support.%s not found" % name)
+        return f
+    return {k: _skeleton(fn(k), (), full=True) for k in ("reset_value", "is_value_defined", "cmdline_args_override", "get_all_fields")}
+
+
+def support_table(repo):
+    t = support_shape(repo)
+    lines = ["/- GENERATED by harness/extract.py from /repo on every run — do not edit. -/", "namespace Cinco.Generated", "",
+             "/-- control skeletons of `reset_value`, `is_value_defined`, `cmdline_args_override`, `get_all_fields` (cincoconfig/support.py) -/",
+             "def supportShape : List (String × List String) := [%s]" % ", ".join("(%s, [%s])" % (lstr(k), ", ".join(lstr(x) for x in v)) for k, v in t.items()),
+             "", "end Cinco.Generated"]
+    changed = _write("SupportShape.lean", "\n".join(lines) + "\n")
+    return {"SupportShape.lean": {"changed": changed, "shape": t}}
+
+
 def run(repo):
     """regenerate every table; a table whose source the translator cannot read any more is left as it was (the last reading) and
     reported under "unreadable": the obligations over it are then not established for the current source"""
     notes = {}
-    for step in (tables, overrides, effects, stub_effects, defaults_table, fast_paths_table, registration_table, parser_table, keyfile_table, load_validate_table):
+    for step in (tables, overrides, effects, stub_effects, defaults_table, fast_paths_table, registration_table, parser_table, keyfile_table, load_validate_table, support_table):
         try:
             notes.update(step(repo))
         except Unknown as e:
